@@ -235,6 +235,24 @@ class Oracle:
                             return "%s holds a %s entry %s of DMap %s that should not exist (destroyed or deleted)" % (mi, kind, k, a[0])
             self.hit("wb_keys_checked")
             return None
+        if name == "c.rawscan":
+            import re
+            pat = None if a[1] == "*" else re.compile(bytes.fromhex(a[1]).decode())
+
+            def rmatches(k):
+                return pat is None or pat.search(bytes.fromhex(k).decode("latin-1") if k != "-" else "") is not None
+            must = set(k for (d, k) in self.ref if d == a[0] and self.live((d, k)) is not None and rmatches(k))
+            may = set(k for (d, k) in self.ref if d == a[0] and rmatches(k))
+            if not reply.startswith("n="):
+                return "raw DM.SCAN walk over %s (match %s, count %s): %s" % (a[0], a[1], a[2], reply[:80])
+            got = reply.split()[1:]
+            if len(a) > 3 and a[3] == "rc" and int(self.cfg.get("r", 1)) < 2:
+                return None
+            if not must <= set(got) or not set(got) <= may:
+                return "raw DM.SCAN cursors over every partition of %s (%s, match %s, count %s) yielded %s, present keys %s" % (
+                    a[0], "backup copies" if len(a) > 3 else "primary copies", a[1], a[2], sorted(set(got))[:12], sorted(must)[:12])
+            self.hit("raw_scan_replica" if len(a) > 3 else "raw_scan_checked")
+            return None
         if name == "c.scanall":
             import re
             pat = None if len(a) < 4 or a[3] == "*" else re.compile(bytes.fromhex(a[3]).decode())
@@ -336,7 +354,11 @@ class Gen:
             if r.random() < 0.05:
                 # a full iteration with the client iterator: every page size, with and without a pattern
                 pat = r.choice(["*", "*", hx(b"^k[0-3]$"), hx(b"k1"), hx(b"zzz"), hx(b"^(k0|ctr)")])
-                yield "c.scanall %s %d %s %s %d" % (r.choice(["emb", "cli"]), r.randrange(n), dm, pat, r.choice([1, 1, 2, 3, 10, 1000]))
+                if r.random() < 0.6:
+                    yield "c.scanall %s %d %s %s %d" % (r.choice(["emb", "cli"]), r.randrange(n), dm, pat, r.choice([1, 1, 2, 3, 10, 1000]))
+                else:
+                    # the same with raw DM.SCAN cursors, partition by partition, on the primary copies or (RC) the backup copies
+                    yield "c.rawscan %s %s %d%s" % (dm, pat, r.choice([1, 1, 2, 3, 10, 1000]), " rc" if R > 1 and r.random() < 0.4 else "")
             if r.random() < 0.04:
                 # the background workers run at any moment: expired entries are removed by the eviction scan (on the owner and
                 # its backups), tables are compacted, empty fragments are dropped - no operation may notice
@@ -470,5 +492,5 @@ class Gen:
                 yield self.tick()
 
 
-REQUIRED_SHAPES = ["iterator_checked", "iterator_match", "iterator_count_1", "custom_dmap_ttl", "pipeline_multi", "pipeline_two_getputs", "incr_decr", "getput", "lock_acquired", "lock_contended", "wrong_token", "mirror_checked", "put_cond_and_ttl", "expire_present", "multi_key_delete", "read_after_expiry",
+REQUIRED_SHAPES = ["raw_scan_checked", "iterator_checked", "iterator_match", "iterator_count_1", "custom_dmap_ttl", "pipeline_multi", "pipeline_two_getputs", "incr_decr", "getput", "lock_acquired", "lock_contended", "wrong_token", "mirror_checked", "put_cond_and_ttl", "expire_present", "multi_key_delete", "read_after_expiry",
                    "read_from_non_owner"]
